@@ -69,7 +69,11 @@ def simp(A, e):
         if ca is not None and cb is not None: return C(ca - cb)
         if cb is not None: return a if cb == 0 else ['sub', a, b]
         if eqb(a, b): return C(0)
-        if ca is not None and ca == 1 and b[0] == 'sub' and is_c(b[1], 1): return b[2]
+        if ca is not None and b[0] == 'sub' and is_c(b[1], 1):       # one_minus_arg b = Some b[2]
+            return b[2] if ca == 1 else ['sub', a, b]
+        if a[0] == 'add':                                             # add_cancel: (r + b) - b = r, (b + r) - b = r
+            if eqb(a[2], b): return a[1]
+            if eqb(a[1], b): return a[2]
         return ['sub', a, b]
     if k == 'mul':
         if ca is not None and cb is not None: return C(ca * cb)
@@ -131,6 +135,13 @@ def is_identity(i):
         return all(is_c(f, 0) for f in i['fs'])
     return False
 
+def is_lt(A, x, y):
+    if is_c(x, 0) and is_pos(A, y):
+        return True
+    if y[0] == 'add':
+        return (eqb(x, y[1]) and is_pos(A, y[2])) or (eqb(x, y[2]) and is_pos(A, y[1]))
+    return False
+
 def decide_ge(A, x, y):
     cx, cy = cq(x), cq(y)
     if cx is not None and cy is not None:
@@ -139,6 +150,8 @@ def decide_ge(A, x, y):
         return True
     if is_c(y, 0) and is_nonneg(A, x):
         return True
+    if is_lt(A, x, y):
+        return False
     return None
 
 def norm(A, p):
